@@ -209,6 +209,8 @@ class PoolWorld:
                 w.point("w_start", key, tag)
                 if variant == "instant":
                     return ("done", tag)
+                if variant == "retexc":
+                    return ValueError("returned as a value, never raised")
                 stage = 0
                 while True:
                     f = w.loop.create_future()
@@ -325,6 +327,12 @@ class PoolWorld:
             if w._is_slow(which, key):
                 raise CbError((which, tag))
 
+        def retfut(i):
+            key = enter(i)
+            fut = asyncio.ensure_future(w.pools[p].flush(return_exceptions=True))
+            leave(key)
+            return fut
+
         def plain2(extra, i):
             key = enter(i)
             leave(key)
@@ -362,6 +370,7 @@ class PoolWorld:
             "method": holder.sync_method,
             "amethod": holder.async_method,
             "plain": plain,
+            "retfut": retfut,
             "coro": coro,
             "slow": slow,
             "raise": raising,
@@ -662,7 +671,11 @@ class PoolWorld:
                     func = functools.partial(func, parg, k0=("frozen", tag))
                     args = (parg,) + (args or ())
                 kw = {}
-                if args is not None and not opts.get("partial"):
+                if args is not None and not opts.get("partial") and opts.get("argsform") == "view":
+                    kw["args"] = dict(enumerate(args)).values()  # a legal iterable that is not a Sequence
+                elif args is not None and not opts.get("partial") and opts.get("argsform") == "set":
+                    kw["args"] = set(args)
+                elif args is not None and not opts.get("partial"):
                     kw["args"] = args
                 elif opts.get("partial") and len(args) > 1:
                     kw["args"] = args[1:]
@@ -751,9 +764,14 @@ class PoolWorld:
                 return ("ok",)
             if name == "set_size":
                 v = size_of(pos[0]) if pos[0] != -1 else -1
+                in_flight = self.live[p] > 0 or self.cb_open > 0 or not self.idle() or any(
+                    r.p == p and t not in self.group_cancelled
+                    and len(self.created.get(t, ())) + len(self.skipped.get(t, ())) < (r.num or 0)
+                    for t, r in self.reqs.items())
                 pool.pool_size = v
                 self.cfg_size[p] = v
-                self.resized.add(p)
+                if in_flight:
+                    self.resized.add(p)  # C01 speaks about a size that is fixed while tasks are in flight
                 return ("ok",)
             if name == "noop":
                 return ("ok",)
